@@ -48,8 +48,12 @@ def doc_tokens(doc):
 
 
 class Keeper:
-    def __init__(self, binp, sd=None, interval_ms=15, log_level="Error", key_dir=None, extra_env=None, wrapper=None, fab=None):
+    def __init__(self, binp, sd=None, interval_ms=15, log_level="Error", key_dir=None, extra_env=None, wrapper=None, fab=None, attach=None):
+        """attach = an e2e.Stack: the key keeper is started inside that stack's process (engine `proxy`, op `keeper`)
+        instead of a process of its own"""
         e2e.setup_net()
+        self.attach = attach
+        self.state_op = "state" if attach is None else "kstate"
         self.own_fab = fab is None
         self.fab = fab or fabric.Fabric("127.0.0.1", 0)
         self.sd = sd or vlib.scratch_dir("keeper")
@@ -58,7 +62,7 @@ class Keeper:
         os.makedirs(self.key_dir, exist_ok=True)
         os.makedirs(self.log_dir, exist_ok=True)
         self.exe = os.path.join(self.sd, "harness")
-        if not os.path.exists(self.exe):
+        if attach is None and not os.path.exists(self.exe):
             shutil.copyfile(binp, self.exe); os.chmod(self.exe, 0o755)
             json.dump({"logFolder": self.log_dir, "eventFolder": self.sd + "/events", "latchKeyFolder": self.key_dir,
                        "monitorIntervalInSeconds": 60, "pollKeyStatusIntervalInSeconds": 15, "hostGAPluginSupport": 1,
@@ -71,6 +75,12 @@ class Keeper:
         self.calls = []              # host-side record of acquire/attest
         self.fab.handlers["secure-channel/status"] = self._status
         self.fab.handlers["secure-channel/key"] = self._key
+        if attach is not None:
+            self.proc = attach.proc
+            r = attach.ctl("keeper %s %d %s %s %d" % (self.fab.ip, self.fab.port, hx(self.key_dir), hx(self.log_dir), interval_ms))
+            if r != "ok":
+                raise RuntimeError("keeper op failed: " + r)
+            return
         r, w = os.pipe()
         env = dict(os.environ, VERIF_ENGINE="keeper", VERIF_OUT=f"/dev/fd/{w}", VERIF_HOST_IP=self.fab.ip, VERIF_HOST_PORT=str(self.fab.port),
                    VERIF_KEY_DIR=self.key_dir, VERIF_LOG_DIR=self.log_dir, VERIF_INTERVAL_MS=str(interval_ms), VERIF_LOG_LEVEL=log_level)
@@ -132,6 +142,8 @@ class Keeper:
 
     # ---- control
     def ctl(self, line):
+        if self.attach is not None:
+            return self.attach.ctl(line)
         self.proc.stdin.write((line + "\n").encode()); self.proc.stdin.flush()
         return self.out.readline().strip()
 
@@ -164,7 +176,7 @@ class Keeper:
         time.sleep(0.005)
         if not self.wait_at_gate(timeout=8.0, kick=kick):
             return None
-        return self.ctl("state")
+        return self.ctl(self.state_op)
 
     def alive(self):
         return self.proc.poll() is None
@@ -174,8 +186,9 @@ class Keeper:
             with self.lock:
                 self.release += [{"status": {"kind": "http", "code": 503}}] * 3
                 self.lock.notify_all()
-            self.proc.stdin.write(b"quit\n"); self.proc.stdin.flush()
-            self.proc.wait(timeout=3)
+            if self.attach is None:
+                self.proc.stdin.write(b"quit\n"); self.proc.stdin.flush()
+                self.proc.wait(timeout=3)
         except Exception:
             try:
                 self.proc.kill()
